@@ -406,15 +406,17 @@ class Histogram1D(ObjectWithBinning, HistogramBase):
         else:
             # The square is taken of the python number, before anything is changed
             # (a huge weight raises here, a narrow numpy integer does not wrap around).
-            weight2 = (weight.item() if isinstance(weight, np.generic) else weight) ** 2
+            number = weight.item() if isinstance(weight, np.generic) else weight
+            weight2 = number**2
             self._errors2[ixbin] += weight2
             self._frequencies[ixbin] += weight
             try:
+                # (the statistics are kept as python numbers, whatever type the weight came in)
                 self._stats = dataclasses.replace(
                     self.statistics,
-                    weight=self.statistics.weight + weight,
-                    sum=self.statistics.sum + weight * value,
-                    sum2=self.statistics.sum2 + weight * value**2,
+                    weight=self.statistics.weight + number,
+                    sum=self.statistics.sum + number * value,
+                    sum2=self.statistics.sum2 + number * value**2,
                     min=min(self.statistics.min, value),
                     max=max(self.statistics.max, value),
                     median=np.nan,
